@@ -22,6 +22,9 @@ def run(tier):
         raise Broken("the routing oracle of Grid.tla fails its own brute-force cross-check: %s\n%s"
                      % (r0.violated or r0.error, r0.trace_text[:2000]))
     cov["oracle_selfcheck_states"] = r0.distinct
+    # D1: the transcription of the quadtree descent (case table, candidate order, mutex) returns exactly Route
+    import snapcheck as _sc
+    cov["design_models"] = _sc.run_design(("descent",), tier)
 
     # D + R: every segment of the window x hot sets -> real SnapClosestPoints at several placements
     cfg = "MC_Route_quick.cfg" if tier == "quick" else "MC_Route_thorough.cfg"
